@@ -88,6 +88,52 @@ CHECKS['C18'] = dict(
          'and the with-block stash/restore), each result must equal its sequential result; thorough adds a free-running stress layer.',
     note='Trusted: vlib/refeval.py as the history-free model, vlib/c18_sched.py. Only Python-line-granular interleavings are explored; C-extension internals are atomic to the scheduler.')
 
+CHECKS['C15'] = dict(
+    category='exploration', design_ref='DESIGN.md §3 C15',
+    technique='bounded exhaustive enumeration of small program texts through the real front end + branch/trip-count input enumeration vs an independent must-be-defined dataflow',
+    text='Every program text up to the stated bounds (<=3 statements with <=7 name slots, 4 statements with <=5 slots, sampled 5-statement skeletons, plus random larger '
+         'shapes) built from assignments, tuple patterns, if/else, one-armed if, for, enumerate(zip) targets, while, with-as, comprehensions and returns goes through '
+         '@fp.fpy; accepted programs are run on every combination of branch outcomes and trip counts and must never end in NameError/UnboundLocalError/KeyError from '
+         'name resolution or fall off the end; programs the language guide says are rejected (use after a construct that may bind zero times) must be rejected, '
+         'decided by our own dataflow written from the guide.',
+    note='Trusted: the must-be-defined oracle in props/c15_definite_assignment.py. Cases the guide does not decide are counted as either-outcome.')
+
+CHECKS['C12'] = dict(
+    category='translation_validation', design_ref='DESIGN.md §3 C12',
+    technique='generated FPCore-expressible programs: backend output validated by a reference FPCore evaluator, by read-back, and by a structural annotation walk',
+    text='Programs from an FPCore-subset generator (explicitly rounded constants, sequential and nested with-blocks with statements after the inner block, if/while/for '
+         'with 1-3 carried variables, tuples, tensors, reductions, helper calls) are compiled to FPCore; (a) titanfp evaluates the core on the arguments, (b) '
+         'Function.from_fpcore reads it back and is evaluated, (c) the core tree is walked with an active-properties stack in lock-step with the source context '
+         'stack so every operation sits under exactly its enclosing with-block precision/rounding. A titanfp disagreement is a violation only when (b) or (c) confirm it.',
+    note='Trusted: titanfp as reference evaluator (only with confirmation), vlib/c12_oracle.py walkers. disagreements_checked counts titanfp-only disagreements examined.')
+
+CHECKS['C07'] = dict(
+    category='exploration', design_ref='DESIGN.md §3 C07',
+    technique='generated programs: differential testing of each pass, all pass orders and simplify switch combinations against the original; sound repeated-state divergence detection',
+    text='Programs rich in copies with later redefinition, context-dependent constants, dead stores, alias stores, asserts and helper calls (grammar-based + 24 templates) '
+         'are transformed by ConstFold / CopyPropagate / DeadCodeEliminate alone, in all 6 orders, and by simplify under sampled (thorough: all 32) switch combinations; '
+         'f(args) and T(f)(args) are compared by denotation on every input where f returns. Non-termination of simplify is reported only when the harness sees a '
+         'repeated program state while a pass still reports a change.',
+    note='Trusted: the interpreter as reference for the original program (its semantics are checked by C04); vlib/difftest.py. Transform-time refusals are counted, not violations.')
+
+CHECKS['C08'] = dict(
+    category='exploration', design_ref='DESIGN.md §3 C08',
+    technique='generated loop programs with colliding names and all trip-count classes: differential testing of unroll/split/elim_iter/fuse parameterisations against the original',
+    text='Programs with 1-3 nested loops (bodies reassigning outer variables, mutating the iterated list, returning early), range/zip/enumerate iterables and any/all '
+         'comprehensions, with user names chosen to collide with the transforms\' temporaries, are rewritten by unroll_for (1-4), unroll_while (1-3), split (factor 1-5 and '
+         'variable, PEEL/STRICT where the precondition holds), elim_iter and fuse, aimed at None / each index / cursors; results are compared on inputs of length 0-7. '
+         'Two elim_iter defects are open known findings.',
+    note='Trusted: interpreter as reference for the original; vlib/difftest.py. STRICT precondition failures caused by our own inputs are harness errors.')
+
+CHECKS['C10'] = dict(
+    category='exploration', design_ref='DESIGN.md §3 C10',
+    technique='quantize programs for every small context x breakpoint operands: differential testing of each lowering rewrite and every prefix of the documented chain, cross-checked with the absolute rounding oracle',
+    text='For every small context of the families the rewrites handle (as constructor text and as captured constant) a quantize program is rewritten by unfold_special, '
+         'unfold_neg_zero, unfold_overflow (both early_check settings), float_to_fixed, rescale_fixed, elim_round, insert_round alone and by every prefix of the '
+         'documented chain; original and lowered programs are compared on all breakpoint operands (subnormal boundary, maxval, infval+-eps, zeros, infinities, NaN). '
+         'Refusals are allowed and counted; a refused site must leave sites(). Both sides are also compared with the C01 oracle so common defects are attributed to C01.',
+    note='Trusted: interpreter as reference for the original, vlib/oracle_round.py. One sign-of-zero finding (root cause F15) is excluded by construction and listed as open.')
+
 NOT_YET = {}
 
 
